@@ -2,7 +2,7 @@
     a derived factor is listed after the factors it depends on ([Sem.all_valid] fills the
     rows in list order); the combinations of a crossing have one in-range level per crossed factor. *)
 From Coq Require Import ZArith List Bool Arith Lia String Sorted.
-From SP Require Import Design.Sem Design.Flat Design.DocSem Design.DocSemProofs.
+From SP Require Import Design.Sem Design.Flat Design.DocSem Design.DocSemProofs Design.DocSemPlain.
 Import ListNotations.
 Local Open Scope nat_scope.
 Local Open Scope list_scope.
@@ -127,4 +127,132 @@ Theorem doc_sem_deps_before : forall p ds, doc_sem p = Ok ds ->
   forall pd, In pd (w_deps w) -> pd < i.
 Proof.
   intros p ds H. unfold doc_sem, doc_sem_block in H. inv_bind H as bd Hbd H. eapply sem_of_block_deps_before; eauto.
+Qed.
+
+(** * the combinations of a crossing have one level per crossed factor *)
+Lemma fold_set_inv : forall p cr (Q : list name -> Prop) l d0 d,
+  fold_left (fun acc combo => d <- acc ;; w <- combo_weight p cr combo ;; Ok (dict_set names_eqb combo w d)) l (Ok d0) = Ok d ->
+  (forall kv, In kv d0 -> Q (fst kv)) -> (forall c, In c l -> Q c) -> forall kv, In kv d -> Q (fst kv).
+Proof.
+  intros p cr Q l. induction l as [|x l IH]; intros d0 d H H0 Hl kv Hin; cbn [fold_left] in H.
+  - inversion H; subst. apply H0. exact Hin.
+  - cbn [bind] in H. destruct (combo_weight p cr x) as [w|e|s] eqn:E; cbn [bind] in H.
+    + eapply IH; [exact H| |intros c Hc; apply Hl; right; exact Hc|exact Hin].
+      intros [k' v'] Hin'. apply dict_set_in in Hin'. destruct Hin' as [Hin'|[-> _]]; [apply (H0 _ Hin')|apply Hl; left; reflexivity].
+    + exfalso. eapply fold_combos_err; [|exact H]. intros d'; discriminate.
+    + exfalso. eapply fold_combos_err; [|exact H]. intros d'; discriminate.
+Qed.
+
+Lemma all_combos_len : forall p cr d, all_combos p cr = Ok d -> forall kv, In kv d -> List.length (fst kv) = List.length cr.
+Proof.
+  intros p cr d H. unfold all_combos in H. inv_bind H as doms Hd H.
+  apply (fold_set_inv p cr (fun k => List.length k = List.length cr) _ _ _ H); [intros kv []|].
+  intros c Hc. rewrite (in_product_length _ _ Hc). apply (mapM_length _ _ _ Hd).
+Qed.
+
+Lemma fold_res_err : forall {A B} (F : res A -> B -> res A), (forall e x, F (Unsup e) x = Unsup e) -> (forall w x, F (Crash w) x = Crash w) ->
+  forall l r, (forall d, r <> Ok d) -> forall d, fold_left F l r <> Ok d.
+Proof.
+  intros A B F H1 H2 l. induction l as [|x l IH]; intros r Hr d; cbn [fold_left]; [apply Hr|]. apply IH.
+  destruct r as [a|e|w]; [exfalso; exact (Hr a eq_refl)|rewrite H1; discriminate|rewrite H2; discriminate].
+Qed.
+
+Lemma feasible_len : forall p design crossing ex fe, feasible_combos p design crossing ex = Ok fe ->
+  forall kv, In kv fe -> List.length (fst kv) = List.length crossing.
+Proof.
+  intros p design crossing ex fe H. unfold feasible_combos in H.
+  inv_bind H as kinds Hk H. inv_bind H as extra Hextra H. inv_bind H as within Hw H. inv_bind H as excl He H. inv_bind H as doms Hd H.
+  match type of H with fold_left ?F _ _ = _ => set (STEP := F) in * end.
+  set (inv := fun d : combos => forall kv, In kv d -> List.length (fst kv) = List.length crossing).
+  assert (Hstep : forall d0 vals r, STEP (Ok d0) vals = Ok r -> inv d0 -> inv r).
+  { intros d0 vals r Hr Hi. unfold STEP in Hr. cbn [bind] in Hr. cbv zeta in Hr.
+    match type of Hr with (if ?c then _ else _) = _ => destruct c end; [inversion Hr; subst; exact Hi|].
+    inv_bind Hr as wv Hwv Hr. destruct wv as [wv|]; [|inversion Hr; subst; exact Hi].
+    inv_bind Hr as parts Hp Hr.
+    intros kv Hin. apply (fold_set_inv p crossing (fun k => List.length k = List.length crossing) _ _ _ Hr); [exact Hi| |exact Hin].
+    intros c Hc. rewrite (in_product_length _ _ Hc). apply (mapM_length _ _ _ Hp). }
+  assert (G : forall l acc d, fold_left STEP l acc = Ok d -> (forall d0, acc = Ok d0 -> inv d0) -> inv d).
+  { induction l as [|x l IH]; intros acc d Hf Hacc; cbn [fold_left] in Hf; [apply Hacc; exact Hf|].
+    destruct acc as [d0|e|w].
+    - apply (IH _ _ Hf). intros d1 E. apply (Hstep d0 x d1 E). apply Hacc. reflexivity.
+    - exfalso. assert (E : STEP (Unsup e) x = Unsup e) by reflexivity. rewrite E in Hf.
+      revert Hf. apply fold_res_err; try (intros; reflexivity). intros d'; discriminate.
+    - exfalso. assert (E : STEP (Crash w) x = Crash w) by reflexivity. rewrite E in Hf.
+      revert Hf. apply fold_res_err; try (intros; reflexivity). intros d'; discriminate. }
+  apply (G _ _ _ H). intros d0 E. inversion E; subst. intros kv [].
+Qed.
+
+Definition combos_len (c : dcross) : Prop := forall kv, In kv (x_combos c) -> List.length (fst kv) = List.length (x_factors c).
+
+Lemma doc_crossing_len : forall p d ex rcc cr x, doc_crossing p d ex rcc cr = Ok x -> combos_len x.
+Proof.
+  intros p d ex rcc cr x H. unfold doc_crossing in H. inv_bind H as allc Ha H. inv_bind H as feas Hf H. inv_bind H as P HP H.
+  inversion H; subst. unfold combos_len. cbn [x_combos x_factors]. destruct rcc; [apply (all_combos_len _ _ _ Ha)|apply (feasible_len _ _ _ _ _ Hf)].
+Qed.
+
+(** [_finish] and the Nest scaling keep the factors and combinations of every crossing *)
+Definition fc (c : dcross) : list nat * combos := (x_factors c, x_combos c).
+
+Lemma Forall_len_fc : forall cs cs', map fc cs = map fc cs' -> Forall combos_len cs' -> Forall combos_len cs.
+Proof.
+  induction cs as [|c cs IH]; intros [|c' cs'] H H'; cbn [map] in H; try discriminate; constructor.
+  - assert (Hc : fc c = fc c') by congruence. unfold fc in Hc. inversion H' as [|? ? Hc' _]; subst. unfold combos_len in *.
+    assert (E1 : x_factors c = x_factors c') by congruence. assert (E2 : x_combos c = x_combos c') by congruence. rewrite E1, E2. exact Hc'.
+  - inversion H'; subst. apply (IH cs'); [congruence|assumption].
+Qed.
+
+Lemma finish_fc : forall bd mode bd', finish bd mode = Ok bd' -> map fc (b_crossings bd') = map fc (b_crossings bd).
+Proof.
+  intros bd mode bd' H. unfold finish in H. match type of H with (if ?c then _ else _) = _ => destruct c; [discriminate|] end.
+  inv_bind H as cs' Hcs H. inversion H; subst; cbn [b_crossings].
+  assert (G : forall T cs cs0, mapM (finish_cw mode T) cs = Ok cs0 -> map fc cs0 = map fc cs).
+  { intros T cs cs0 Hm. apply mapM_ok in Hm. induction Hm as [|a b l m Hab _ IH]; [reflexivity|]. cbn [map]. f_equal; [|exact IH].
+    unfold finish_cw in Hab. destruct (x_S a =? 0); [inversion Hab; reflexivity|]. destruct (_ =? x_cw a); [inversion Hab; reflexivity|].
+    destruct mode; inversion Hab; reflexivity. }
+  destruct mode; [eapply G; eauto|inversion Hcs; reflexivity|eapply G; eauto].
+Qed.
+
+Lemma merge_len : forall inners cs mode al nest bd, merge inners cs mode al nest = Ok bd ->
+  Forall (fun b => Forall combos_len (b_crossings b)) inners -> Forall combos_len (b_crossings bd).
+Proof.
+  intros inners cs mode al nest bd H Hin. unfold merge in H. destruct (_ && _); [discriminate|]. inv_bind H as bd0 Hf H.
+  apply finish_fc in Hf. cbn [b_crossings] in Hf. inversion H; subst; cbn [b_crossings]. eapply Forall_len_fc; [exact Hf|].
+  clear -Hin. induction Hin as [|b bs Hb _ IH]; cbn; [constructor|]. apply Forall_app. split; assumption.
+Qed.
+
+Lemma doc_block_len : forall p b bd, doc_block p b = Ok bd -> Forall combos_len (b_crossings bd).
+Proof.
+  intros p b. induction b as [d c cs rcc|d crs cs rcc mode al|b cs IH|bs cs mode al IH|o i cs al IHo IHi] using pblock_ind';
+    intros bd H; cbn [doc_block] in H.
+  - unfold doc_cross in H. inv_bind H as kinds Hk H. inv_bind H as xs Hxs H. inv_bind H as bd0 Hf H.
+    apply finish_fc in Hf. cbn [b_crossings] in Hf. inversion H; subst; cbn [b_crossings]. eapply Forall_len_fc; [exact Hf|].
+    apply Forall_forall. intros x Hx. destruct (mapM_in _ _ _ _ Hxs Hx) as [cr [_ Hcr]]. eapply doc_crossing_len; eauto.
+  - unfold doc_cross in H. inv_bind H as kinds Hk H. inv_bind H as xs Hxs H. inv_bind H as bd0 Hf H.
+    apply finish_fc in Hf. cbn [b_crossings] in Hf. inversion H; subst; cbn [b_crossings]. eapply Forall_len_fc; [exact Hf|].
+    apply Forall_forall. intros x Hx. destruct (mapM_in _ _ _ _ Hxs Hx) as [cr [_ Hcr]]. eapply doc_crossing_len; eauto.
+  - inv_bind H as inner Hi H. eapply merge_len; [exact H|]. constructor; [apply IH; exact Hi|constructor].
+  - inv_bind H as inners Hi H. inv_bind H as al' Hal H. eapply merge_len; [exact H|].
+    apply go_ok in Hi. clear -IH Hi. induction Hi as [|b bd bs inners Hb _ IHi]; [constructor|].
+    inversion IH; subst. constructor; [eauto|apply IHi; assumption].
+  - inv_bind H as outer Ho H. inv_bind H as inner Hi H. destruct (existsb _ _); [discriminate|].
+    eapply merge_len; [exact H|]. constructor; [|constructor; [apply IHi; exact Hi|constructor]].
+    cbn [scale_outer b_crossings]. apply Forall_forall. intros x Hx. apply in_map_iff in Hx. destruct Hx as [c [<- Hc]].
+    specialize (IHo _ Ho). rewrite Forall_forall in IHo. exact (IHo c Hc).
+Qed.
+
+(** the multiplicity list of a crossing of the normal form *)
+Theorem doc_sem_mult_shape : forall p ds, doc_sem p = Ok ds ->
+  forall c, In c (s_crossings (ds_sem ds)) -> forall im, In im (c_mult c) -> List.length (fst im) = List.length (c_factors c).
+Proof.
+  intros p ds H c Hc im Him. unfold doc_sem, doc_sem_block in H. inv_bind H as bd Hbd H.
+  pose proof (doc_block_len _ _ _ Hbd) as Hlen. unfold sem_of_block in H.
+  inv_bind H as kinds Hk H. destruct (negb _); [discriminate|].
+  inv_bind H as depths Hd H. inv_bind H as factors Hf H. inv_bind H as crossings Hx H. inv_bind H as constraints Hcs H.
+  inversion H; subst ds; cbn [ds_sem s_crossings] in Hc. clear H.
+  destruct (mapM_in _ _ _ _ Hx Hc) as [x [Hxin Hsx]]. unfold sem_crossing in Hsx. destruct (_ =? 0); [discriminate|].
+  inv_bind Hsx as mult Hm Hsx. inv_bind Hsx as fs Hfs Hsx. inversion Hsx; subst c. cbn [c_mult c_factors] in *.
+  destruct (mapM_in _ _ _ _ Hm Him) as [[combo v] [Hin Hf']]. apply in_sort_by in Hin. cbn [fst snd] in Hf'.
+  inv_bind Hf' as idx Hidx Hf'. inversion Hf'; subst im. cbn [fst].
+  rewrite (mapM_length _ _ _ Hidx), (mapM_length _ _ _ Hfs), combine_length.
+  rewrite Forall_forall in Hlen. pose proof (Hlen x Hxin (combo, v) Hin) as E. cbn [fst] in E. rewrite E. apply Nat.min_id.
 Qed.
